@@ -26,6 +26,26 @@ type BoolSim struct {
 	Stop map[ssa.Instruction]bool
 	// In records, after Run, through which predecessor indices each block was entered.
 	In map[*ssa.BasicBlock]map[int]bool
+	// Returns records, after Run, every (return, evaluated boolean results) that was reached;
+	// a result that is not a known boolean is "?".
+	Returns []SimReturn
+}
+
+// SimReturn is one way a return was reached: Vals[k] is "true", "false" or "?".
+type SimReturn struct {
+	Ret  *ssa.Return
+	Vals []string
+}
+
+// ReturnedBools lists the distinct values result k took over all reached returns.
+func (s *BoolSim) ReturnedBools(k int) map[string]bool {
+	out := map[string]bool{}
+	for _, r := range s.Returns {
+		if k < len(r.Vals) {
+			out[r.Vals[k]] = true
+		}
+	}
+	return out
 }
 
 // ValuesAt resolves v at the end of block b after Run: a phi of b becomes the
@@ -95,6 +115,8 @@ func envKey(env map[ssa.Value]bool) string {
 func (s *BoolSim) Run() map[*ssa.BasicBlock]bool {
 	reached := map[*ssa.BasicBlock]bool{}
 	s.In = map[*ssa.BasicBlock]map[int]bool{}
+	s.Returns = nil
+	seenRet := map[string]bool{}
 	seen := map[string]bool{}
 	work := []simState{{s.Fn.Blocks[0], -1, map[ssa.Value]bool{}}}
 	steps := 0
@@ -157,6 +179,21 @@ func (s *BoolSim) Run() map[*ssa.BasicBlock]bool {
 			continue
 		}
 		last := st.b.Instrs[len(st.b.Instrs)-1]
+		if ret, ok := last.(*ssa.Return); ok {
+			sr := SimReturn{Ret: ret}
+			for _, rv := range ret.Results {
+				if val, known := s.eval(rv, env); known {
+					sr.Vals = append(sr.Vals, fmt.Sprint(val))
+				} else {
+					sr.Vals = append(sr.Vals, "?")
+				}
+			}
+			k := fmt.Sprintf("%p|%v", ret, sr.Vals)
+			if !seenRet[k] {
+				seenRet[k] = true
+				s.Returns = append(s.Returns, sr)
+			}
+		}
 		if iff, ok := last.(*ssa.If); ok {
 			val, known := s.eval(iff.Cond, env)
 			same := st.b.Succs[0] == st.b.Succs[1]
